@@ -461,6 +461,12 @@ def oracles(lines):
     loggers_sinks = {g: list(d["sinks"]) for g, d in rec["loggers"].items()}
     last_cap = {}
     unknown_outcomes = [0]
+    # ---- C06 liveness (F34): a flush_log caller parked across polls that process nothing although older ripe statements wait
+    f34_wait = {}       # actor -> clock value of its flush_log call while it is parked in it
+    f34_ctrl = [0]      # accepted events that are processed without any sink call (requests; over-approximation)
+    f34_req = {}        # actor -> [(clock value, poll, site)] of its requests (flush / backtrace / removal)
+    f34_streak = []     # per silent poll of the current streak: dict(idx, blocker, now)
+    f34_cur = dict(poll=None, site=None)   # the poll / hook site whose injected operations are being handled
 
     def handle_front(w, res, t_now):
         nonlocal dyn_cfg_changes, dropped_log_calls, removed_loggers, backtrace_used
@@ -496,7 +502,8 @@ def oracles(lines):
             lvl = 9 if op == "LB" else 4 if op == "LN" else int(w[3])
             if op == "LB":
                 backtrace_used = True
-            st = stmts.setdefault(i, dict(actor=a, g=g, lvl=lvl, ts=t_now, enq=None, ret=None, op=op, sinks=list(loggers_sinks.get(g, []))))
+            st = stmts.setdefault(i, dict(actor=a, g=g, lvl=lvl, ts=t_now, enq=None, ret=None, op=op, sinks=list(loggers_sinks.get(g, [])),
+                                          inj_poll=f34_cur["poll"], inj_site=f34_cur["site"]))
             if "parked" in res:
                 pending_by_actor[a] = i
                 park_mark[a] = (idle["epoch"], idle["streak"])
@@ -508,10 +515,16 @@ def oracles(lines):
             backtrace_used = True
             if res != "noop":
                 live_logged.add(int(w[1]))
+                f34_ctrl[0] += 1
+                f34_req.setdefault(int(w[1]), []).append((t_now, f34_cur["poll"], f34_cur["site"]))
         elif op == "F":
             a, g = int(w[1]), int(w[2])
             if res != "noop":
                 live_logged.add(a)
+                f34_ctrl[0] += 1
+                f34_req.setdefault(a, []).append((t_now, f34_cur["poll"], f34_cur["site"]))
+                if res.startswith("parked"):
+                    f34_wait[a] = t_now
             # everything whose log call completed before this flush call began
             flush_wait[a] = dict(need=set(i for i, s in stmts.items() if s["ret"] is True), t=t_now)
             if res == "done":
@@ -522,6 +535,8 @@ def oracles(lines):
                 removal_requested.add(int(w[2]))
             if op == "RB" and res != "noop":
                 live_logged.add(int(w[1]))
+                f34_ctrl[0] += 1
+                f34_req.setdefault(int(w[1]), []).append((t_now, f34_cur["poll"], f34_cur["site"]))
         elif op == "CL":
             g = int(w[2])
             if "valid=1" in res:
@@ -536,8 +551,11 @@ def oracles(lines):
             dyn_cfg_changes = True
         elif op == "T" and w[2] == "exit" and res == "ok":
             exited.add(int(w[1]))
+            f34_wait.pop(int(w[1]), None)
         elif op == "R":
             a = int(w[1])
+            if res == "done":
+                f34_wait.pop(a, None)
             if res.startswith("id=") and a in pending_by_actor:
                 i = pending_by_actor.pop(a)
                 finish_log(i, res, t_now)
@@ -644,6 +662,82 @@ def oracles(lines):
         elif e.startswith("n:dropped:"):
             dropped_reported += int(e.split(":")[2])
 
+    def f34_certain(st, i):
+        # popping this statement certainly calls write_log of some sink (static configuration only)
+        return st["lvl"] != 9 and st["op"] != "LB" and any(
+            (s in rec["sinks"]) and accepts(rec["sinks"][s], st, i) for s in st["sinks"])
+
+    def f34_pending(st, i):
+        return st["ret"] is True and st["enq"] is not None and f34_certain(st, i) and not any(
+            written.get((s, i), 0) for s in st["sinks"])
+
+    def f34_flush():
+        # the streak of silent polls has ended: more silent polls than events that can be processed silently?
+        streak = list(f34_streak)
+        del f34_streak[:]
+        if not streak or has_faults or dyn_cfg_changes:
+            return
+        silent_ok = f34_ctrl[0] + sum(1 for i, st in stmts.items()
+                                      if st["ret"] in (True, "unknown") and not f34_certain(st, i))
+        if len(streak) < 3 + silent_ok:
+            return
+        batch_possible = all(x["pend"] + silent_ok >= cfg.get("soft", 0) for x in streak)
+        unexplained = [x for x in streak if x["blocker"] is None]
+        first = streak[0]
+        if batch_possible and not unexplained:
+            viol.append(("C06", "[F34] flush_log of actor %d stays parked across %d consecutive polls (from operation %d) that process "
+                         "nothing while statement id=%d (ts=%d, older than the request, past the grace period) is pending: every one of "
+                         "these polls is stopped by the batch guard on a context with an empty transit buffer and an unread queue "
+                         "(actors %s: registered / logged inside the poll or with every pending statement inside the grace period)" % (
+                             first["waiter"], len(streak), first["idx"], first["stmt"], stmts[first["stmt"]]["ts"],
+                             sorted({x["blocker"] for x in streak}))))
+        else:
+            x = (unexplained or streak)[0]
+            viol.append(("C06", "flush_log of actor %d stays parked across %d consecutive polls that process nothing while statement id=%d "
+                         "(ts=%d, older than the request, past the grace period) is pending, and the poll at operation %d is not stopped by "
+                         "the batch guard on a newcomer context (%s): flush_log() does not return although the backend keeps running" % (
+                             x["waiter"], len(streak), x["stmt"], stmts[x["stmt"]]["ts"], x["idx"],
+                             "fewer than soft=%d events can be cached" % cfg.get("soft", 0) if not batch_possible else
+                             "every context with a pending statement had one that was readable in this pass")))
+
+    def f34_poll(k_op, now0, fe):
+        if has_faults or dyn_cfg_changes or not f34_wait:
+            del f34_streak[:]
+            return
+        plain = [e for e in fe if not e.startswith("[@")]
+        progress = any(e.startswith(("w:", "fl:", "fthrow:", "wthrow:", "n:")) for e in plain)
+        clock_inj = any(e.startswith("[@") and re.search(r" K_\d+ ->", e) for e in fe)
+        ripe = lambda st: grace == 0 or now0 > st["ts"] + grace
+        cand = None
+        for a, t_req in f34_wait.items():
+            for i, st in stmts.items():
+                if st.get("inj_poll") == k_op:
+                    continue
+                if f34_pending(st, i) and st["ts"] <= t_req and ripe(st) and (st["actor"] == a or st["ts"] < t_req):
+                    cand = (a, i)
+                    break
+            if cand:
+                break
+        if progress or clock_inj or cand is None:
+            f34_flush()
+            return
+        # a context that can stop the batch: it holds pending statements, and none of them could be read in this pass
+        blocker = None
+        by_actor = {}
+        for i, st in stmts.items():
+            if st["ret"] in (True, "unknown") and st["enq"] is not None and st["lvl"] != 9 and not any(written.get((s, i), 0) for s in st["sinks"]) \
+                    and f34_certain(st, i):
+                by_actor.setdefault(st["actor"], []).append(st)
+        late = lambda ts, pl, site: (pl == k_op and (site or 0) >= 2) or not (grace == 0 or now0 > ts + grace)
+        for b in sorted(set(by_actor) | set(f34_req)):
+            sts = by_actor.get(b, [])
+            reqs = [r for r in f34_req.get(b, []) if late(*r)]
+            if (sts or reqs) and all(late(st["ts"], st.get("inj_poll"), st.get("inj_site")) for st in sts):
+                blocker = b
+                break
+        f34_streak.append(dict(idx=k_op, blocker=blocker, now=now0, waiter=cand[0], stmt=cand[1],
+                               pend=sum(1 for i, st in stmts.items() if f34_pending(st, i))))
+
     xs_seen = False
     q_snaps = []
     for k_op, (w, res, evs) in enumerate(rec["ops"]):
@@ -664,17 +758,24 @@ def oracles(lines):
             else:
                 idle["streak"] = 0
                 idle["epoch"] += 1
+            now_at_poll = now
             for e in flatten_events(evs):
                 if e.startswith("[@"):
-                    m = re.match(r"\[@\d+\.\d+ (\S+) -> (.*)\]$", e)
+                    m = re.match(r"\[@(\d+)\.\d+ (\S+) -> (.*)\]$", e)
                     if m:
-                        iw = m.group(1).split("_")
+                        iw = m.group(2).split("_")
                         if iw[0] == "K":
                             now += int(iw[1])
                         else:
-                            handle_front(iw, m.group(2), now)
+                            f34_cur.update(poll=k_op, site=int(m.group(1)))
+                            handle_front(iw, m.group(3), now)
+                            f34_cur.update(poll=None, site=None)
                 else:
                     handle_event(e)
+            if op == "P" and res != "noop":
+                f34_poll(k_op, now_at_poll, fe)
+            else:
+                f34_flush()
             continue
         handle_front(w, res, now)
         if op != "Q" and res != "noop" and not res.startswith("parked:sleep"):
@@ -683,6 +784,7 @@ def oracles(lines):
         for e in flatten_events(evs):
             handle_event(e)
 
+    f34_flush()
     # ---- C03 / C08 / C10: exactly once, intact, delivered xor dropped ------------------------------------------
     for (s, i), c in written.items():
         st = stmts.get(i)
